@@ -64,13 +64,15 @@ func parse(b []byte) (cli int, seq uint32, ok bool) {
 }
 
 type client struct {
-	idx      int
-	conn     *net.UDPConn
-	addr     string
-	odd      bool   // refused by the "even" filter
-	lastRead uint32 // highest seq read by any connection of this remote (atomic)
-	sent     uint32
-	openConn int32 // number of harness-side open connections for this remote
+	idx         int
+	conn        *net.UDPConn
+	addr        string
+	odd         bool   // refused by the "even" filter
+	lastRead    uint32 // highest seq read by any connection of this remote (atomic)
+	sent        uint32
+	openConn    int32 // number of harness-side open connections for this remote
+	cmu         sync.Mutex
+	closedConns []net.Conn // connections of this remote that the harness has closed (stale handles)
 }
 
 // listenerPort is the port of the listener of the running case (one case at a time per process).
@@ -205,6 +207,15 @@ func runCase(c *dcase, r *res.Result) (string, string) {
 		if n := atomic.AddInt32(&cl.openConn, 1); n > 1 {
 			violate("demux:duplicate-connection", fmt.Sprintf("two connections for remote %s are open at the same time", ra))
 		}
+		// Close again on the stale handles of this remote's earlier, already closed connections: it must leave the
+		// fresh connection alone (a second connection for the remote would show up above, lost datagrams below)
+		cl.cmu.Lock()
+		stale := append([]net.Conn{}, cl.closedConns...)
+		cl.cmu.Unlock()
+		for _, old := range stale {
+			old.Close()
+			r.Count("closes_of_closed_connections", 1)
+		}
 		buf := make([]byte, 9000)
 		var last uint32
 		reads := 0
@@ -258,6 +269,9 @@ func runCase(c *dcase, r *res.Result) (string, string) {
 		}
 		atomic.AddInt32(&cl.openConn, -1) // marked closed before Close is called: a new connection may appear from now on
 		conn.Close()
+		cl.cmu.Lock()
+		cl.closedConns = append(cl.closedConns, conn)
+		cl.cmu.Unlock()
 	}
 	acceptorDone := make(chan struct{})
 	pause := make(chan struct{})
